@@ -160,6 +160,24 @@ def random_case(rng, i):
                      tick_ns=(1_000_000, 1000, 1)[(i // 20) % 3]), prog
 
 
+def race_cases(quick):
+    """Directed overlap grids: dirty pages fill the cache while / before a read_page(p) of a missing page is at
+    the disk; a write_page(p) of the same page has to wait for the dirty LRU victim's write-back, and so has
+    the reader once its disk read returns (both client orders, small grids of start times and latencies)."""
+    out = []
+    for cap in ((1, 2) if quick else (1, 2, 3)):
+        for rl, wl in (((1, 2), (2, 3), (3, 2)) if quick else ((1, 2), (1, 3), (2, 3), (3, 2), (2, 2), (3, 1), (1, 1))):
+            for a in ((0, 1, 2) if quick else (0, 1, 2, 3)):
+                for b in ((0, 1) if quick else (0, 1, 2, 3)):
+                    fill = [["write", p, 0] for p in range(1, cap + 1)]       # cap dirty pages, page 1 is the LRU
+                    reader, writer = [["read", 9, b]], [["write", 9, a]]
+                    out.append((world_cfg(cap=cap, ra=0, rl=rl, wl=wl), [reader, fill, writer]))
+                    out.append((world_cfg(cap=cap, ra=0, rl=rl, wl=wl), [fill, writer, reader]))
+                    if not quick:
+                        out.append((world_cfg(cap=cap, ra=1, rl=rl, wl=wl), [[["read", 8, b]], fill, writer]))
+    return out
+
+
 class Runs:
     def __init__(self, chk):
         self.chk = chk
